@@ -56,7 +56,7 @@ func VsymC20_Converges() {
 	nBefore, nDuring, nAfter := vsym_Param("before"), vsym_Param("during"), vsym_Param("after")
 	// the shapes explored (the full product is too large): changes while the router starts are
 	// combined with at most one other change, and not with a change in a stream gap
-	if nDuring == 1 && (nBefore+nAfter == 2 || vsym_Param("interrupt") == 2) {
+	if nDuring == 1 && (nBefore+nAfter >= 2 || vsym_Param("interrupt") == 2) {
 		return
 	}
 	if groups && nDuring == 1 && nBefore+nAfter > 0 {
